@@ -13,6 +13,7 @@
 (***************************************************************************)
 EXTENDS Naturals, Sequences, FiniteSets, TLC
 CONSTANTS Conn, Oid, MaxCommits, MaxCloses,
+          WithRC,              \* explore readCurrent dependencies (model checking switch)
           UndoAgents,          \* members of Conn that stand for DB.undo transactions (never opened, no cache)
           MutIgnoreILtid       \* deviation for self-test: snapshot := polled tid only
 VARIABLES hist,       \* committed and published transactions: sequence of [tid, oids]
@@ -24,12 +25,13 @@ VARIABLES hist,       \* committed and published transactions: sequence of [tid,
           pc,         \* [Conn -> {"new","closed","idle","polled","txn","voted","delivering"}]
           polled,     \* [Conn -> Nat] value read from lastTransaction() at the boundary
           dirty,      \* [Conn -> SUBSET Oid] objects modified in the running transaction
+          rc,         \* [Conn -> SUBSET Oid] objects the transaction declared it depends on being current (readCurrent)
           commitLock, \* Conn or "none"
           pending,    \* [done: instances the committer has invalidated, late: instances registered while it runs]
           ctid,       \* tid of the transaction being finished
           pool,       \* closed connections available for reuse
           closes      \* bound on close/reopen cycles
-vars == <<hist, sLtid, start, inval, iLtid, cache, pc, polled, dirty, commitLock, pending, ctid, pool, closes>>
+vars == <<hist, sLtid, start, inval, iLtid, cache, pc, polled, dirty, rc, commitLock, pending, ctid, pool, closes>>
 None == "none"
 Max(a, b) == IF a > b THEN a ELSE b
 SerialAt(o, t) == LET S == {i \in 1..Len(hist) : o \in hist[i].oids /\ hist[i].tid <= t}
@@ -41,7 +43,7 @@ Registered(c) == pc[c] # "new"          \* the instance stays registered while t
 Init == /\ hist = <<[tid |-> 1, oids |-> Oid]>> /\ sLtid = 1
         /\ start = [c \in Conn |-> 0] /\ inval = [c \in Conn |-> {}] /\ iLtid = [c \in Conn |-> 0]
         /\ cache = [c \in Conn |-> [o \in Oid |-> 0]] /\ pc = [c \in Conn |-> "new"]
-        /\ polled = [c \in Conn |-> 0] /\ dirty = [c \in Conn |-> {}]
+        /\ polled = [c \in Conn |-> 0] /\ dirty = [c \in Conn |-> {}] /\ rc = [c \in Conn |-> {}]
         /\ commitLock = None /\ pending = [done |-> {}, late |-> {}] /\ ctid = 0 /\ pool = {} /\ closes = 0
 InFinish == \E c \in Conn : pc[c] = "delivering"
 
@@ -50,48 +52,53 @@ InFinish == \E c \in Conn : pc[c] = "delivering"
 OpenNew(c) == /\ pc[c] = "new" /\ pool = {} /\ c \notin UndoAgents
               /\ pc' = [pc EXCEPT ![c] = "idle"]
               /\ pending' = IF InFinish THEN [pending EXCEPT !.late = @ \cup {c}] ELSE pending
-              /\ UNCHANGED <<hist, sLtid, start, inval, iLtid, cache, polled, dirty, commitLock, ctid, pool, closes>>
+              /\ UNCHANGED <<hist, sLtid, start, inval, iLtid, cache, polled, dirty, rc, commitLock, ctid, pool, closes>>
 \* (the pool prefers the connection with the most active cache, so any pooled connection may come back)
 OpenPooled(c) == /\ c \in pool /\ pc[c] = "closed"
                  /\ pool' = pool \ {c}
                  /\ pc' = [pc EXCEPT ![c] = "idle"]
-                 /\ UNCHANGED <<hist, sLtid, start, inval, iLtid, cache, polled, dirty, commitLock, pending, ctid, closes>>
+                 /\ UNCHANGED <<hist, sLtid, start, inval, iLtid, cache, polled, dirty, rc, commitLock, pending, ctid, closes>>
 \* Connection.close(): only outside a transaction; the cache is kept, the instance keeps receiving invalidations
 Close(c) == /\ (pc[c] = "idle" \/ (pc[c] = "txn" /\ dirty[c] = {})) /\ closes < MaxCloses
             /\ pc' = [pc EXCEPT ![c] = "closed"] /\ pool' = pool \cup {c} /\ closes' = closes + 1
-            /\ UNCHANGED <<hist, sLtid, start, inval, iLtid, cache, polled, dirty, commitLock, pending, ctid>>
+            /\ UNCHANGED <<hist, sLtid, start, inval, iLtid, cache, polled, dirty, rc, commitLock, pending, ctid>>
 
 \* boundary, step 1: storage.lastTransaction() under the storage lock (excluded while a finish runs)
 PollRead(c) == /\ ~InFinish /\ (pc[c] = "idle" \/ (pc[c] = "txn" /\ dirty[c] = {}))
                /\ polled' = [polled EXCEPT ![c] = sLtid]
                /\ pc' = [pc EXCEPT ![c] = "polled"]
-               /\ UNCHANGED <<hist, sLtid, start, inval, iLtid, cache, dirty, commitLock, pending, ctid, pool, closes>>
+               /\ UNCHANGED <<hist, sLtid, start, inval, iLtid, cache, dirty, rc, commitLock, pending, ctid, pool, closes>>
 \* boundary, step 2: under the instance lock choose the snapshot and drain; then apply to the cache
 PollApply(c) == /\ pc[c] = "polled"
                 /\ start' = [start EXCEPT ![c] = IF MutIgnoreILtid THEN polled[c] ELSE Max(polled[c], iLtid[c])]
                 /\ cache' = [cache EXCEPT ![c] = [o \in Oid |-> IF o \in inval[c] THEN 0 ELSE cache[c][o]]]
                 /\ inval' = [inval EXCEPT ![c] = {}]
                 /\ pc' = [pc EXCEPT ![c] = "txn"]
-                /\ UNCHANGED <<hist, sLtid, iLtid, polled, dirty, commitLock, pending, ctid, pool, closes>>
+                /\ UNCHANGED <<hist, sLtid, iLtid, polled, dirty, rc, commitLock, pending, ctid, pool, closes>>
 \* setstate of a ghost: loadBefore(oid, start+1) through the storage (excluded while a finish runs)
 \* (a load that does not depend on the commit being finished is the same before, during and after it)
 Read(c, o) == /\ (~InFinish \/ start[c] < ctid) /\ pc[c] = "txn" /\ cache[c][o] = 0 /\ SerialAt(o, start[c]) # 0
               /\ cache' = [cache EXCEPT ![c][o] = SerialAt(o, start[c])]
-              /\ UNCHANGED <<hist, sLtid, start, inval, iLtid, pc, polled, dirty, commitLock, pending, ctid, pool, closes>>
+              /\ UNCHANGED <<hist, sLtid, start, inval, iLtid, pc, polled, dirty, rc, commitLock, pending, ctid, pool, closes>>
 Write(c, o) == /\ pc[c] = "txn" /\ cache[c][o] # 0 /\ o \notin dirty[c]
                /\ dirty' = [dirty EXCEPT ![c] = @ \cup {o}]
-               /\ UNCHANGED <<hist, sLtid, start, inval, iLtid, cache, pc, polled, commitLock, pending, ctid, pool, closes>>
+               /\ UNCHANGED <<hist, sLtid, start, inval, iLtid, cache, pc, polled, rc, commitLock, pending, ctid, pool, closes>>
+\* Connection.readCurrent(ob) on an activated object: the commit must fail if ob is not current any more
+ReadCurrent(c, o) == /\ WithRC /\ pc[c] = "txn" /\ cache[c][o] # 0 /\ o \notin rc[c]
+                     /\ rc' = [rc EXCEPT ![c] = @ \cup {o}]
+                     /\ UNCHANGED <<hist, sLtid, start, inval, iLtid, cache, pc, polled, dirty, commitLock, pending, ctid, pool, closes>>
 AbortTxn(c) == /\ pc[c] = "txn"
                /\ cache' = [cache EXCEPT ![c] = [o \in Oid |-> IF o \in dirty[c] THEN 0 ELSE cache[c][o]]]
-               /\ dirty' = [dirty EXCEPT ![c] = {}] /\ pc' = [pc EXCEPT ![c] = "idle"]
+               /\ dirty' = [dirty EXCEPT ![c] = {}] /\ rc' = [rc EXCEPT ![c] = {}] /\ pc' = [pc EXCEPT ![c] = "idle"]
                /\ UNCHANGED <<hist, sLtid, start, inval, iLtid, polled, commitLock, pending, ctid, pool, closes>>
 \* tpc_begin + stores + vote: the conflict check compares the cached serial with the committed one
 BeginVote(c) == /\ ~InFinish /\ pc[c] = "txn" /\ dirty[c] # {} /\ commitLock = None /\ Len(hist) <= MaxCommits
-                /\ IF \A o \in dirty[c] : cache[c][o] = Cur(o)
+                /\ IF \A o \in dirty[c] \cup rc[c] : cache[c][o] = Cur(o)
                    THEN /\ commitLock' = c /\ ctid' = sLtid + 1 /\ pc' = [pc EXCEPT ![c] = "voted"]
-                        /\ UNCHANGED <<cache, dirty>>
-                   ELSE /\ cache' = [cache EXCEPT ![c] = [o \in Oid |-> IF o \in dirty[c] THEN 0 ELSE cache[c][o]]]
-                        /\ dirty' = [dirty EXCEPT ![c] = {}] /\ pc' = [pc EXCEPT ![c] = "idle"]
+                        /\ UNCHANGED <<cache, dirty, rc>>
+                   ELSE \* ConflictError / ReadConflictError: the modified copies are dropped
+                        /\ cache' = [cache EXCEPT ![c] = [o \in Oid |-> IF o \in dirty[c] THEN 0 ELSE cache[c][o]]]
+                        /\ dirty' = [dirty EXCEPT ![c] = {}] /\ rc' = [rc EXCEPT ![c] = {}] /\ pc' = [pc EXCEPT ![c] = "idle"]
                         /\ UNCHANGED <<commitLock, ctid>>
                 /\ UNCHANGED <<hist, sLtid, start, inval, iLtid, polled, pending, pool, closes>>
 \* DB.undo / undoMultiple: a transaction of its own (UndoAdapterInstance) that writes the objects of the undone
@@ -102,27 +109,27 @@ UndoVote(u, oids, ok) ==
   /\ IF ok THEN /\ commitLock' = u /\ ctid' = sLtid + 1 /\ pc' = [pc EXCEPT ![u] = "voted"]
                  /\ dirty' = [dirty EXCEPT ![u] = oids]
            ELSE UNCHANGED <<commitLock, ctid, pc, dirty>>
-  /\ UNCHANGED <<hist, sLtid, start, inval, iLtid, cache, polled, pending, pool, closes>>
+  /\ UNCHANGED <<hist, sLtid, start, inval, iLtid, cache, polled, rc, pending, pool, closes>>
 \* tpc_finish enters the storage lock; invalidations go to every OTHER registered instance, one lock at a time
 FinishStart(c) == /\ pc[c] = "voted"
                   /\ pending' = [done |-> {}, late |-> {}] /\ pc' = [pc EXCEPT ![c] = "delivering"]
-                  /\ UNCHANGED <<hist, sLtid, start, inval, iLtid, cache, polled, dirty, commitLock, ctid, pool, closes>>
+                  /\ UNCHANGED <<hist, sLtid, start, inval, iLtid, cache, polled, dirty, rc, commitLock, ctid, pool, closes>>
 Deliver(c, j) == /\ pc[c] = "delivering" /\ j # c /\ Registered(j) /\ j \notin pending.done
                  /\ inval' = [inval EXCEPT ![j] = @ \cup dirty[c]] /\ iLtid' = [iLtid EXCEPT ![j] = ctid]
                  /\ pending' = [pending EXCEPT !.done = @ \cup {j}]
-                 /\ UNCHANGED <<hist, sLtid, start, cache, pc, polled, dirty, commitLock, ctid, pool, closes>>
+                 /\ UNCHANGED <<hist, sLtid, start, cache, pc, polled, dirty, rc, commitLock, ctid, pool, closes>>
 \* the storage publishes (_ltid, index), the lock is released, the committer marks its objects up to date
 Publish(c) == /\ pc[c] = "delivering"
               /\ \A j \in Conn : (Registered(j) /\ j # c /\ j \notin pending.late) => j \in pending.done
               /\ hist' = Append(hist, [tid |-> ctid, oids |-> dirty[c]]) /\ sLtid' = ctid
               /\ iLtid' = [iLtid EXCEPT ![c] = ctid]
               /\ cache' = [cache EXCEPT ![c] = [o \in Oid |-> IF o \in dirty[c] THEN ctid ELSE cache[c][o]]]
-              /\ dirty' = [dirty EXCEPT ![c] = {}] /\ commitLock' = None
+              /\ dirty' = [dirty EXCEPT ![c] = {}] /\ rc' = [rc EXCEPT ![c] = {}] /\ commitLock' = None
               /\ pc' = [pc EXCEPT ![c] = IF c \in UndoAgents THEN "new" ELSE "idle"]
               /\ UNCHANGED <<start, inval, polled, pending, ctid, pool, closes>>
 Next == \/ \E c \in Conn : OpenNew(c) \/ OpenPooled(c) \/ Close(c) \/ PollRead(c) \/ PollApply(c) \/ AbortTxn(c)
                             \/ BeginVote(c) \/ FinishStart(c) \/ Publish(c)
-        \/ \E c \in Conn, o \in Oid : Read(c, o) \/ Write(c, o)
+        \/ \E c \in Conn, o \in Oid : Read(c, o) \/ Write(c, o) \/ ReadCurrent(c, o)
         \/ \E c \in Conn, j \in Conn : Deliver(c, j)
         \/ \E u \in UndoAgents, oids \in SUBSET Oid : UndoVote(u, oids, TRUE)
 Spec == Init /\ [][Next]_vars
@@ -137,6 +144,6 @@ Fresh == \A c \in Conn : pc[c] = "txn" => start[c] >= polled[c]
 \* a snapshot never runs ahead of what is published, except by the commit being delivered right now
 NotFromTheFuture == \A c \in Conn : pc[c] = "txn" => (start[c] <= sLtid \/ (InFinish /\ start[c] = ctid))
 \* no lost update: a transaction reaches the vote only on the latest revisions
-VotedOnCurrent == \A c \in Conn \ UndoAgents : pc[c] \in {"voted", "delivering"} => \A o \in dirty[c] : cache[c][o] = Cur(o)
+VotedOnCurrent == \A c \in Conn \ UndoAgents : pc[c] \in {"voted", "delivering"} => \A o \in dirty[c] \cup rc[c] : cache[c][o] = Cur(o)
 LockDiscipline == (commitLock # None) <=> (\E c \in Conn : pc[c] \in {"voted", "delivering"})
 =============================================================================
